@@ -11,9 +11,9 @@ Observation: against a live simulator subprocess
 import socket, struct, subprocess, sys, time
 from vlib import core
 
-TAGS = {'T': ('DINT', 300), 'S': ('INT', 250), 'B': ('SINT', 8), 'R': ('REAL', 5)}
-TYCODE = {'DINT': 196, 'INT': 195, 'SINT': 194, 'REAL': 202}
-RANGE = {'DINT': (-2 ** 31, 2 ** 31 - 1), 'INT': (-32768, 32767), 'SINT': (-128, 127)}
+TAGS = {'T': ('DINT', 300), 'S': ('INT', 250), 'B': ('SINT', 8), 'R': ('REAL', 5), 'U': ('UINT', 60)}
+TYCODE = {'DINT': 196, 'INT': 195, 'SINT': 194, 'REAL': 202, 'UINT': 199}
+RANGE = {'DINT': (-2 ** 31, 2 ** 31 - 1), 'INT': (-32768, 32767), 'SINT': (-128, 127), 'UINT': (0, 65535)}
 OK, NOPATH, RANGE_ERR = 'Success', 'Path destination unknown', 'Unknown error 255'
 
 
@@ -35,7 +35,7 @@ def rand_val(rng, ty):
     if ty == 'REAL':
         return rng.randrange(-2000, 2000) * 0.25
     lo, hi = RANGE[ty]
-    return rng.choice([lo, hi, 0, 1, -1, rng.randrange(lo, hi + 1)])
+    return rng.choice([lo, hi, 0, 1, max(lo, -1), (lo + hi + 1) // 2, rng.randrange(lo, hi + 1)])
 
 
 def forward_open_sizes(port):
@@ -262,6 +262,21 @@ def raw_client(port, rng, spec, seqs):
         ot_id = nums[0]
         if nums[1] != fo['to'][0] or nums[2] != fo['serial'] or nums[3] != fo['vendor'] or nums[4] != fo['oserial']:
             problems.append(dict(step='Forward Open', problem='reply does not echo T->O id / serial / vendor / originator serial', fields=list(nums)))
+        # a cross-type write whose FIRST values fit the tag and a later one does not: refused with 0xFF / 0x2107, and nothing of it stored
+        spec['T'][0:3] = [0, 0, 0]
+        pre = dict(svc=77, path=[('sym', b'T'), ('element', 0)], status=None, nums=[196, 3], data=('z', [0, 0, 0]))
+        bad = dict(svc=77, path=[('sym', b'T'), ('element', 0)], status=None, nums=[200, 3], data=('z', [7, 8, 0xFFFFFFFF]))
+        chk = dict(svc=76, path=[('sym', b'T'), ('element', 0)], status=None, nums=[3], data=('z', []))
+        for k, (msg, want_st) in enumerate(((pre, (0, [])), (bad, (0xFF, [0x2107])), (chk, (0, [])))):
+            f = dict(cmd=112, session=sess, status=0, ctx=b'\0' * 8, options=0, nums=[0, 0],
+                     cpf=[dict(tid=161, num=ot_id), dict(tid=177, num=900 + k, msg=dict(kind='bare', msg=msg))])
+            s.sendall(enc_frame(f))
+            r = dec_frame(recv_frame(s) or b'')
+            m = ((r or {}).get('cpf') or [{}, {}])[1].get('msg', {}).get('msg', {}) if r else {}
+            if not r or m.get('status') != want_st:
+                problems.append(dict(step='refused cross-type write', request=repr(msg)[:160], got=repr(m.get('status')), expected=repr(want_st))); break
+            if k == 2 and list(m['data'][1]) != [0, 0, 0]:
+                problems.append(dict(step='refused cross-type write', problem='a Write Tag refused with 0xFF/0x2107 left values behind: T[0..2] = %r' % (list(m['data'][1]),)))
         for seq in seqs:
             name = rng.choice(['T', 'S', 'B']); ty, n = TAGS[name]
             i = rng.randrange(min(n, 40))
